@@ -252,3 +252,22 @@ Definition step (s : st) (o : op) : st * res :=
   end.
 
 Definition run (ops : list op) (s : st) : st := fold_left (fun s o => fst (step s o)) ops s.
+
+(* ---------- `with model:` at SPECIFICATION level (property C03) ----------
+   No undo closures are modelled: entering a block saves the state, leaving it puts the saved state back.
+   That the implementation does the same for the operations it documents as reversible is what the C03
+   check compares (Check.v, code 4).  Gene objects created inside the block are never handed out again. *)
+Record cst := mkC { cur : st; saved : list st }.
+Inductive cop := Do (o : op) | Enter | Exit.
+
+Definition restore (e s : st) : st :=
+  mkSt (rids e) (rin e) (rule e) (rgenes e) (glist e) (gid e) (gback e) (gmod e) (nextg s).
+
+Definition cstep (c : cst) (o : cop) : cst * res :=
+  match o with
+  | Do o => let '(s, r) := step (cur c) o in (mkC s (saved c), r)
+  | Enter => (mkC (cur c) (cur c :: saved c), Ok)
+  | Exit => match saved c with e :: rest => (mkC (restore e (cur c)) rest, Ok) | [] => (c, Ok) end
+  end.
+
+Definition crun (ops : list cop) (c : cst) : cst := fold_left (fun c o => fst (cstep c o)) ops c.
